@@ -3,7 +3,7 @@ against the REAL runtime classes (type-stripped codegen-v2.ts) + property oracle
 import vcheck
 
 PID = "C11"
-MODULES = ["BeffVerif.Props.C11", "BeffVerif.Props.C11Frag"]
+MODULES = ["BeffVerif.Props.C11", "BeffVerif.Props.C11Frag", "BeffVerif.Props.C11Open"]
 AUDIT = "BeffVerif/Audit/C11.lean"
 TAGS = ("c11.",)
 HYP = {"NoSplitIntersection": "D9", "NoNumberKey": "D21"}
